@@ -307,6 +307,59 @@ def run_correspondence(hs, res):
         for hi, h in enumerate(hs):
             if any(r[0] == "err" for r, _ in impl[hi]) and len(set(q[1] for q in h)) >= 2:
                 res.nontrivial.add(L.kind_seq(h))
+    run_reference_correspondence(hs, res)
+
+
+def lean_content(c):
+    """StoreCodec content JSON -> the canonical shape of Backend.content"""
+    def val(x):
+        return None if x == "<missing>" else x
+    nodes = sorted(canon(sorted([k, v] for k, v in n if k != "GraphID")) for n in c["nodes"])
+    edges = sorted(canon([sorted([canon(val(a)), canon(val(b))]), sorted([k, v] for k, v in p)]) for a, b, p in c["edges"])
+    return {"nodes": nodes, "edges": edges}
+
+
+def run_reference_correspondence(hs, res):
+    """A: the Lean reference model `AGraph.step` against the shared store, reply and per-graph content after
+    every call (a history is followed up to its first merge_nodes, which the reference interface does not have)"""
+    gids = ["g1", "g2", "g3"]
+    lines, meta, impl = [], [], []
+    for hi, h in enumerate(hs):
+        be = L.Backend("shared")
+        lines.append(json.dumps(["A", "reset"]))
+        meta.append(None)
+        tr = []
+        for k, req in enumerate(h):
+            if req[0] == "merge_nodes":
+                break
+            rep = L.canon_reply(req[0], be.apply(req))
+            tr.append((rep, {g: be.content(g) for g in gids}))
+            lines.append(json.dumps(["A", req]))
+            meta.append((hi, k, "op", None))
+            for g in gids:
+                lines.append(json.dumps(["A", "content", g]))
+                meta.append((hi, k, "content", g))
+        impl.append(tr)
+    replies = LeanDriver("C05").run(lines)
+    bad = set()
+    for m, line in zip(meta, replies):
+        if m is None or m[0] in bad:
+            continue
+        hi, k, what, g = m
+        h = hs[hi]
+        rep = json.loads(line)
+        if what == "op":
+            res.evaluations += 1
+            res.count("A:op:%s" % h[k][0])
+            exp = impl[hi][k][0]
+            got = L.canon_reply(h[k][0], rep)
+        else:
+            exp = impl[hi][k][1][g]
+            got = lean_content(rep[1]) if rep[0] == "ok" else rep
+        if canon(got) != canon(exp):
+            bad.add(hi)
+            res.disagreements.append({"case": {"flavour": "reference", "history": h[:k + 1]}, "at": [k, what, g],
+                                      "impl": exp, "model": got})
 
 
 # ------------------------------------------------------------------------------------------
